@@ -4,6 +4,7 @@ go 1.26
 
 require (
 	github.com/avos-io/goat v0.0.0
+	github.com/grpc-ecosystem/go-grpc-middleware v1.4.0
 	github.com/rs/zerolog v1.33.0
 	google.golang.org/grpc v1.66.0
 	google.golang.org/protobuf v1.34.2
